@@ -38,15 +38,32 @@ impl Manager {
         let mut cfg = Cfg::new_with_predefined_call_names(nodes, &Some(interrupt_call_names))?;
         NodeDirectionPass::run(&mut cfg)?;
         EliminateDeadCodeDirectionsPass::run(&mut cfg)?;
-        AvailableValuePass::run(&mut cfg)?;
-        EcallTerminationPass::run(&mut cfg)?;
+        Self::values_and_exits(&mut cfg)?;
         FunctionMarkupPass::run(&mut cfg)?;
 
-        AvailableValuePass::run(&mut cfg)?;
-        EcallTerminationPass::run(&mut cfg)?;
+        Self::values_and_exits(&mut cfg)?;
         // EliminateDeadCodeDirectionsPass::run(&mut cfg)?; // to eliminate ecall terminated code
         LivenessPass::run(&mut cfg)?;
         Ok(cfg)
+    }
+
+    /// Run the value analysis and cut the edges behind exit ecalls until no known exit has a
+    /// successor left.
+    ///
+    /// Cutting an edge changes the values behind it, and that can turn another ecall into a known
+    /// exit (its number reached it through a jump around the first one), so one round is not
+    /// always enough; the values that are kept are the ones of the final graph.
+    fn values_and_exits(cfg: &mut Cfg) -> Result<(), Box<CfgError>> {
+        loop {
+            AvailableValuePass::run(cfg)?;
+            let uncut = cfg
+                .iter()
+                .any(|node| node.is_program_exit() && !node.nexts().is_empty());
+            if !uncut {
+                return Ok(());
+            }
+            EcallTerminationPass::run(cfg)?;
+        }
     }
     pub fn run_diagnostics(cfg: &Cfg, errors: &mut DiagnosticManager) {
         SaveToZeroCheck::run(cfg, errors);
